@@ -39,7 +39,8 @@ def build(world):
     comments = [(b['text'], b['file'], b['line']) for b in world['blocks']]
     dump = ET.ElementTree(ET.fromstring(world['dump'])) if world.get('dump') else None
     r = S.run(syms, comments=comments, includes=world.get('includes', ['GLib', 'GObject']), dump=dump, warnings=False,
-              shared_libraries=world.get('libraries'), c_includes=world.get('c_includes', ()), packages=world.get('packages', ()))
+              shared_libraries=world.get('libraries'), c_includes=world.get('c_includes', ()), packages=world.get('packages', ()),
+              include_paths=world.get('include_paths'), identifier_prefixes=world.get('identifier_prefixes'))
     return r.xml
 
 
